@@ -420,7 +420,8 @@ class ConfigParser(object):
         if len(cp[override.section]) == 0:
           cp.remove_section(override.section)
       else:
-        cp[override.section][override.key] = override.value
+        # values read from a file are stripped of surrounding white space: treat 'SECTION:key = value' alike
+        cp[override.section][override.key] = override.value.strip()
 
     # Add additional values
     for override in additional:
@@ -431,7 +432,7 @@ class ConfigParser(object):
 
       if not cp.has_section(override.section) and override.section != cp.default_section:
         cp.add_section(override.section)
-      cp[override.section][override.key] = override.value
+      cp[override.section][override.key] = override.value.strip()
 
     return cp
 
